@@ -3,6 +3,7 @@
    file <path>    same, stream read from a file
    emit <ints>    build a sequential stream with the spec writer (see checks/C04.py for the format)
    lemit <ints>   build a lossless (SOF3) stream with the spec writer
+   aemit <ints>   build a sequential arithmetic-coded (SOF9) stream with the spec writer (Annex D, F.1.4)
    Result lines:  ok sof=<n> nc=<k> warn=0 | w h c.. | w h c.. ; Q q0..q63 ; Q ..   (decoded; tables in natural order)
                   lossless sof=3 nc=<k> warn=0 | w h s.. | ..                        (Annex H samples)
                   parsed sof=<n>                                     (valid syntax, process not decoded)
@@ -37,8 +38,8 @@ let dec_bytes bs =
           List.iter (fun c -> Buffer.add_char b ' '; Buffer.add_string b (string_of_int (int_of_z c))) l) comps;
         print_endline (Buffer.contents b)
     end else
-    if n > 2 then Printf.printf "parsed sof=%d\n" n else
-    match (if n = 2 then t81_decode_progressive st else t81_decode st) with
+    if n > 2 && n <> 9 then Printf.printf "parsed sof=%d\n" n else
+    match (if n = 2 then t81_decode_progressive st else if n = 9 then t81_decode_arith st else t81_decode st) with
     | None -> Printf.printf "decode-fail sof=%d\n" n
     | Some comps ->
       let b = Buffer.create 65536 in
@@ -52,7 +53,7 @@ let dec_bytes bs =
       print_endline (Buffer.contents b)
 let hex_of bs =
   let b = Buffer.create 4096 in List.iter (fun z -> Buffer.add_string b (Printf.sprintf "%02x" (int_of_z z))) bs; Buffer.contents b
-let emit_line lossless toks =
+let emit_line lossless arith toks =
   let a = Array.of_list (List.map int_of_string toks) in
   let pos = ref 0 in
   let next () = let v = a.(!pos) in incr pos; v in
@@ -69,6 +70,7 @@ let emit_line lossless toks =
                                                  let nv = next () in let vals = rep nv nz in (((tc, th), cnt), vals)))
     | 3 -> SegDRI (nz ())
     | 4 -> let n = nz () in let l = next () in SegAPP (n, rep l nz)
+    | 6 -> let nt = next () in SegDAC (rep nt (fun () -> let tc = nz () in let tb = nz () in let cs = nz () in ((tc, tb), cs)))
     | _ -> let l = next () in SegCOM (rep l nz) in
   let scomps () = let ns = next () in rep ns (fun () -> let c = nz () in let td = nz () in let ta = nz () in ((c, td), ta)) in
   let fills () = let nr = next () in rep nr (fun () -> nat_of_int (next ())) in
@@ -94,7 +96,8 @@ let emit_line lossless toks =
         | 1 -> IFrame (fill, nz ())
         | _ -> let sc = scomps () in let rf = fills () in IScan (fill, sc, rf)) in
       let ef = nat_of_int (next ()) in
-      t81_emit { ch_items = items; ch_eoi_fill = ef } { im_p = p; im_y = y; im_x = x; im_comps = comps; im_coefs = coefs }
+      (if arith then t81_emit_arith else t81_emit)
+        { ch_items = items; ch_eoi_fill = ef } { im_p = p; im_y = y; im_x = x; im_comps = comps; im_coefs = coefs }
     end in
   match res with
   | None -> print_endline "fail"
@@ -103,6 +106,7 @@ let () = iter_lines (fun line ->
   match words line with
   | [ "dec"; h ] -> (try dec_bytes (bytes_of_hex h) with Failure _ -> print_endline "reject-syntax")
   | [ "file"; p ] -> dec_bytes (bytes_of_file p)
-  | "emit" :: toks -> (try emit_line false toks with Invalid_argument _ | Failure _ -> print_endline "fail")
-  | "lemit" :: toks -> (try emit_line true toks with Invalid_argument _ | Failure _ -> print_endline "fail")
+  | "emit" :: toks -> (try emit_line false false toks with Invalid_argument _ | Failure _ -> print_endline "fail")
+  | "lemit" :: toks -> (try emit_line true false toks with Invalid_argument _ | Failure _ -> print_endline "fail")
+  | "aemit" :: toks -> (try emit_line false true toks with Invalid_argument _ | Failure _ -> print_endline "fail")
   | _ -> print_endline "?")
